@@ -39,6 +39,7 @@ type Contract struct {
 	Opts     map[string]string // free options: arith, nopanic, pure, ...
 	Asserts  []*Clause
 	Assumes  []*Clause
+	DeclPkg  string // package whose contract file declared this contract (assume-func)
 	Used     bool
 }
 
@@ -117,7 +118,7 @@ func (ss *SpecSet) LoadFile(path, pkgPath string, trusted bool) error {
 
 var clauseKW = map[string]bool{"requires": true, "ensures": true, "modifies": true, "instantiate": true, "loop": true,
 	"ghost": true, "callback": true, "panics-iff": true, "invariant": true, "opt": true, "monitor": true, "assert": true,
-	"func": true, "type": true, "assumes": true, "global-invariant": true, "axiom": true, "specfun": true, "global": true, "sentinel": true, "package": true, "end": true}
+	"func": true, "assume-func": true, "type": true, "assumes": true, "global-invariant": true, "axiom": true, "specfun": true, "global": true, "sentinel": true, "package": true, "end": true}
 
 func (ss *SpecSet) parse(src, file, pkgPath string, trusted bool) error {
 	lines := strings.Split(src, "\n")
@@ -184,14 +185,21 @@ func (ss *SpecSet) parse(src, file, pkgPath string, trusted bool) error {
 		switch kw {
 		case "package":
 			pkgPath = rest
-		case "func":
+		case "func", "assume-func":
 			curT, curM, curCB = nil, nil, nil
 			c := &Contract{File: file, Line: l.no, Trusted: trusted, Inst: map[string][]string{}, LoopInv: map[int][]*Clause{}, LoopMod: map[int][]*Clause{}, Callback: map[string]*Contract{}, Opts: map[string]string{}}
 			key, params, results, err := parseFuncHead(rest)
 			if err != nil {
 				return fmt.Errorf("%s:%d: %v", file, l.no, err)
 			}
-			key = pkgPath + "." + key
+			if kw == "assume-func" {
+				// assumed contract of a function outside this package (fully qualified key), valid for
+				// the claims that load this contract file only
+				c.Trusted = true
+				c.DeclPkg = pkgPath
+			} else {
+				key = pkgPath + "." + key
+			}
 			c.Key, c.Params, c.Results = key, params, results
 			if _, dup := ss.Funcs[key]; dup {
 				return fmt.Errorf("%s:%d: duplicate contract for %s", file, l.no, key)
@@ -288,11 +296,11 @@ func (ss *SpecSet) parse(src, file, pkgPath string, trusted bool) error {
 				return fmt.Errorf("%s:%d: ghost outside func/type", file, l.no)
 			}
 		case "global":
-			f := strings.Fields(rest)
+			f := strings.SplitN(strings.TrimSpace(rest), " ", 2)
 			if len(f) != 2 {
 				return fmt.Errorf("%s:%d: global needs name and sort", file, l.no)
 			}
-			ss.Ghosts[pkgPath+"."+f[0]] = sortAlias(f[1])
+			ss.Ghosts[pkgPath+"."+f[0]] = sortAlias(strings.TrimSpace(f[1]))
 		case "global-invariant":
 			cl, err := mk("global-invariant", "", rest, l.no)
 			if err != nil {
